@@ -118,6 +118,8 @@ def _item_regex(kind: str, name: str) -> str:
         return r'(?<![A-Za-z0-9_])' + ITEM_KW + kind + r'\s+' + re.escape(name) + r'(?![A-Za-z0-9_])'
     if kind == 'const':
         return r'(?<![A-Za-z0-9_])(?:pub(?:\s*\([^)]*\))?\s+)?const\s+' + re.escape(name) + r'\s*:'
+    if kind == 'type':
+        return r'(?<![A-Za-z0-9_])(?:pub(?:\s*\([^)]*\))?\s+)?type\s+' + re.escape(name) + r'(?![A-Za-z0-9_])'
     if kind == 'impl':
         # name is the text after "impl", whitespace-normalised, e.g.
         # "TlsClientHelloReader" or "MatchQuality for TcpMatchQuality"
@@ -171,7 +173,7 @@ def find_item(src: str, msk: str, kind: str, name: str, lo: int = 0, hi: int = N
     if kind == 'impl':
         bo = m.end() - 1
         return Span(start, match_close(msk, bo) + 1, bo)
-    if kind == 'const':
+    if kind in ('const', 'type'):
         j = msk.find(';', m.end())
         # skip nested braces/brackets
         k = m.end()
